@@ -220,6 +220,7 @@ MUTANTS = [
     ('C19', 'failure-relay-by-everyone', (R, NODE_PROTOCOL, "        if getattr(fevent, 'node_protocol', None) is not self:\n            return\n", ""), 'C19.e'),
     ('C19', 'revert-shared-peers', ('revert', 'e271fde'), 'C19.l'),
     ('C19', 'revert-shared-protocols', ('revert', '1db5c34'), 'C19.l'),
+    ('C19', 'revert-stale-carry', ('revert', '57da474'), 'C19.m'),
 ]
 
 # behaviour-preserving edits: the check of the property must stay silent
